@@ -69,8 +69,36 @@ def gen_case(rng, tier, idx):
                 t = prev
             prev = t
             r[0] = t.isoformat()
-    sch = schedules.rand_schedule(rng, len(rows), bucket=bucket, encs=("candle", "candle", "dict", "list", "mixed"))
-    return {"cfg": cfg, "rows": rows, "schedule": sch, "family": fam, "tfkind": tfkind, "micro": micro}
+    encs = ("candle", "candle", "dict", "list", "mixed")
+    attached = False
+    if rng.random() < 0.07:
+        # candles that arrive with a reading the caller attached (Candle(indicators={...})), consumed as an input series: whether a candle
+        # came through the constructor or through append must not matter; on a timeframe as fine as the feed no bucket is ever merged
+        attached = True
+        ccls = rng.choice(["SMA", "EMA", "WMA", "RSI", "StandardDeviation", "ROC", "Amorph", "Amorph"])
+        if ccls == "Amorph":
+            an = rng.choice(["rising", "above", "highest", "crossover", "mean_falling"])
+            cfg = {"cls": "Amorph", "analysis": an, "kw": {"indicator": "ext", "length": rng.choice([2, 3, 5])}}
+            if an == "crossover":
+                cfg["kw"] = {"indicator_one": "ext", "indicator_two": "close"}
+            elif an == "above":
+                cfg["kw"] = {"indicator": "ext", "indicator_two": "close"}
+        else:
+            cfg = {"cls": ccls, "kw": {**configs.rand_kw(rng, ccls, allow_input=False, max_period=8), "input_value": "ext"}}
+        if tfkind != "none":
+            tf, tf_s, step = pick_timeframe(rng)
+            step = tf_s  # one raw candle per bucket: nothing is merged, so attached readings stay (a merge or a fill candle would leave
+            # a hole in the attached series, and holes inside an input series are outside every quantifier)
+            rows = streams.make_rows(rng, n, fam, step, "regular" if tfkind == "collapse_fill" else rng.choice(["regular", "gaps"]), tf_s, max_gap_buckets=6)
+            cfg["kw"]["timeframe"] = tf
+            if tfkind == "collapse_fill":
+                cfg["kw"]["timeframe_fill"] = True
+            bucket = max(1, tf_s // step)
+        for r in rows:
+            r.append({"ext": round(0.5 * r[4] + 3 + (r[5] % 7), 2)})
+        encs = ("candle",)
+    sch = schedules.rand_schedule(rng, len(rows), bucket=bucket, encs=encs)
+    return {"cfg": cfg, "rows": rows, "schedule": sch, "family": fam, "tfkind": tfkind, "micro": micro, "attached": attached}
 
 
 def extra_cases(tier, seed, shard, nshards):
@@ -151,7 +179,9 @@ def run_case(case):
         if ha != hb:
             stats["helper_divergence"] = 1
     nontrivial = (schedules.n_appends(sch) >= 2 and any(t[2] is not None and t[2] != {} for t in ta)
-                  and (case["tfkind"] == "none" or len(ta) < len(rows)))
+                  and (case["tfkind"] == "none" or len(ta) < len(rows) or bool(case.get("attached"))))
+    if case.get("attached"):
+        stats["attached_reading_cases"] = 1
     if case["tfkind"] != "none" and len(ta) < len(rows):
         stats["merges_observed"] = len(rows) - len(ta)
     return {"violations": viol, "nontrivial": nontrivial, "stats": stats,
